@@ -50,6 +50,19 @@ def cases(ctx, budget):
         v = salted(rng, gen.rand_json(rng, depth=rng.randint(1, 4), fan=4, names=names, top=True))
         if rng.random() < 0.5: q = gen.guided_query(rng, v, names=names, filters=True, depth=rng.randint(1, 3), maxseg=3)
         else: q = gen.rand_query(rng, names=names, filters=True, depth=rng.randint(1, 3), maxseg=3)
+        if rng.random() < 0.12:
+            # arrays (and objects) of values Python conflates (True == 1 == 1.0, False == 0 == 0.0, hash-equal) but JSON does not,
+            # in every order, under a filter that tells them apart
+            pool = [1, True, 1.0, 0, False, 0.0, -0.0, "1", "", None, 2, "a", [], [1], {}]
+            arr = [rng.choice(pool) for _ in range(rng.randint(2, 7))]
+            box = rng.random()
+            v = arr if box < 0.5 else ({"a": arr, "b": dict(zip(names, arr))} if box < 0.75 else [arr, dict(zip(names, arr)), arr[::-1]])
+            lit = ("lit", rng.choice(pool[:12]))
+            rel = ("rel", [])
+            t = ("cmp", rng.choice(["==", "!=", "<", "<=", ">", ">="]), *((rel, lit) if rng.random() < 0.5 else (lit, rel)))
+            if rng.random() < 0.25: t = ("not", t)
+            if rng.random() < 0.2: t = ("rel", [("child", [("filter", t)])])
+            q = [(("child" if box < 0.5 and rng.random() < 0.7 else "desc"), [("filter", t)])]
         if "filter" not in repr(q):
             q.append(("child", [("filter", gen.gen_test(rng, names, gen.BUILTINS, 2))]))
         text = gen.render_query(rng, q)
